@@ -554,6 +554,9 @@ class PDFStandardSecurityHandlerV4(PDFStandardSecurityHandler):
 
     def decrypt_aes128(self, objid: int, genno: int, data: bytes) -> bytes:
         assert self.key is not None
+        if len(data) < 16:
+            # too short to carry the initialization vector: not AES data
+            return data
         key = (
             self.key
             + struct.pack("<L", objid)[:3]
@@ -685,6 +688,9 @@ class PDFStandardSecurityHandlerV5(PDFStandardSecurityHandlerV4):
         return encryptor.update(data) + encryptor.finalize()  # type: ignore
 
     def decrypt_aes256(self, objid: int, genno: int, data: bytes) -> bytes:
+        if len(data) < 16:
+            # too short to carry the initialization vector: not AES data
+            return data
         initialization_vector = data[:16]
         ciphertext = data[16:]
         assert self.key is not None
